@@ -48,7 +48,7 @@ RotRand(i, srcs, nonces) ==
   [op |-> "Rotate", k |-> RE(CertKeys), nid |-> RE(NodeIds \cup {NONE}), order |-> RE(Perms(CertKeys)),
    src |-> RE(srcs), which |-> RE({"cur", "cur", "prev"}), k2 |-> RE(CertKeys), e2 |-> RE(EncKeys), n2 |-> RE(nonces),
    ostate |-> RE(StateOrNone), lf |-> RE({FALSE, FALSE, FALSE, TRUE}),
-   iid |-> RE({FALSE, FALSE, TRUE})]     \* the inner signed bundle carries an id field other than its key id (must not matter)
+   iid |-> RE({FALSE, FALSE, TRUE}), win |-> RE({"ok", "ok", "ok", "exp2m", "fut2m"})]     \* the inner signed bundle carries an id field other than its key id (must not matter)
 
 OpsOf(cls, s) ==
   CASE cls = "Authorize"  -> AuthorizeOps
